@@ -41,6 +41,7 @@ type staticCase struct {
 	Split    int                  `json:"split"`    // partition selector for multi-file compact worlds
 	Order    string               `json:"order"`    // "" = ID order, "rev" = reverse ID order (areas arrive before their paths)
 	Replicas int                  `json:"replicas"` // bulk-compact: copies of the source in one world
+	Frame    string               `json:"frame"`    // where the vertex polygon lies (obs.SetFrame)
 }
 
 func features(w obs.AWorld, skipCollections bool, only func(name string) bool) []ingest.Feature {
@@ -221,6 +222,7 @@ func runStatic(data json.RawMessage) vh.Verdict {
 		cores = 1
 	}
 	feedOrder = c.Order
+	obs.SetFrame(c.Frame)
 	wc := &worldCase{IDs: c.IDs, Keys: c.Keys, Queries: c.Queries, Sections: c.Sections}
 	cm := &comparer{c: wc, class: strings.SplitN(c.Impl, "-", 2)[0]}
 	exp := expState{Eff: c.Eff, Obs: c.Obs}
